@@ -130,7 +130,7 @@ let d_lmap = d_list (d_pair d_str (d_list d_str))
 let d_segment = function
   | L [A "R"; unk; name; files; fv; fs; fseg; vc; dir; gp; conds; alloc; noload; sub; ssa; sea; scsa; scea;
        sssa; ssea; wild; fill; subgroups; keep] ->
-      { ss_unknown = d_list d_str unk; ss_name = d_opt d_str name; ss_files = d_opt (d_list d_file) files;
+      { ss_unknown = d_list d_str unk; ss_name = d_an d_str name; ss_files = d_opt (d_list d_file) files;
         ss_fixed_vram = d_an d_n fv; ss_fixed_symbol = d_an d_str fs; ss_follows_segment = d_an d_str fseg;
         ss_vram_class = d_an d_str vc; ss_dir = d_an d_str dir; ss_gp_info = d_an d_gp gp;
         ss_conds = d_conds conds; ss_alloc_sections = d_an (d_list d_str) alloc;
@@ -164,25 +164,25 @@ let d_settings = function
 
 let d_class = function
   | L [A "R"; unk; name; fv; fs; follows; keep] ->
-      { vs_unknown = d_list d_str unk; vs_name = d_opt d_str name; vs_fixed_vram = d_an d_n fv;
+      { vs_unknown = d_list d_str unk; vs_name = d_an d_str name; vs_fixed_vram = d_an d_n fv;
         vs_fixed_symbol = d_an d_str fs; vs_follows_classes = d_an (d_list d_str) follows;
         vs_keep = d_skeep keep }
   | _ -> raise (Bad "class")
 
 let d_assign = function
   | L [A "R"; unk; name; value; provide; hidden; conds] ->
-      { as_unknown = d_list d_str unk; as_name = d_opt d_str name; as_value = d_opt d_str value;
+      { as_unknown = d_list d_str unk; as_name = d_an d_str name; as_value = d_an d_str value;
         as_provide = d_an d_bool provide; as_hidden = d_an d_bool hidden; as_conds = d_conds conds }
   | _ -> raise (Bad "assign")
 
 let d_required = function
   | L [A "R"; unk; name; conds] ->
-      { rs_unknown = d_list d_str unk; rs_name = d_opt d_str name; rs_conds = d_conds conds }
+      { rs_unknown = d_list d_str unk; rs_name = d_an d_str name; rs_conds = d_conds conds }
   | _ -> raise (Bad "required")
 
 let d_assert = function
   | L [A "R"; unk; check; msg; conds] ->
-      { ats_unknown = d_list d_str unk; ats_check = d_opt d_str check; ats_error_message = d_opt d_str msg;
+      { ats_unknown = d_list d_str unk; ats_check = d_an d_str check; ats_error_message = d_an d_str msg;
         ats_conds = d_conds conds }
   | _ -> raise (Bad "assert")
 
